@@ -14,6 +14,15 @@ BASELINE_OFF = ('cd /repo && env -u ELECTRUMX_VERIF /venv/bin/python -m pytest -
 _IDX_NOTE = ('Trusted: the fake plyvel stand-in (bound to real LevelDB by the conformance run), '
              'the reference indexer; only the default schedule is used here (schedules: C06/C07).')
 CHECKS = {
+    'C14': ('fault_enumeration',
+            'exhaustive enumeration of compaction runs x stop/kill points x continuations on really indexed databases',
+            'Three really indexed history databases x row size {1,2,3,12500} x batch limit x {the real '
+            'tool coroutine in one go; stop after batch k and resume (every k); abandon after batch k '
+            'then server; die before the flush-count copy then tool / server} x {index more blocks; '
+            'reorg; server-tool-server}: tx numbers of every script hash unchanged at every stop '
+            'point and reopen, histories equal to the reference after further blocks / reorg.',
+            'A compaction batch is one atomic LevelDB batch; continuations that keep indexing after an '
+            'unfinished compaction only inside the property\'s carve-out.', '3/C14'),
     'C15': ('exploration',
             'exhaustive bounded enumeration of reorg limits x sync trajectories x restarts x fork depths on the real block processor',
             'Reorg limit in {1,2,3,5,50} x daemon extension at every n-th scheduler step of the sync '
